@@ -1102,6 +1102,24 @@ pub fn check_solution_level(m: &PModel, s: &SSolution, out: &mut Vec<Issue>, pro
     }
 }
 
+/// What all tours together load at reloads bound to a shared resource, per resource id and dimension.
+pub fn resource_draw(m: &PModel, s: &SSolution) -> BTreeMap<String, Vec<i64>> {
+    let (mut out, mut probes) = (vec![], Probes::default());
+    let mut drawn: BTreeMap<String, Vec<i64>> = BTreeMap::new();
+    for (ti, t) in s.tours.iter().enumerate() {
+        if let Some(r) = check_tour(m, ti, t, &mut out, &mut probes) {
+            for (id, amount) in r.resource_use {
+                let e = drawn.entry(id).or_default();
+                if e.len() < amount.len() {
+                    e.resize(amount.len(), 0);
+                }
+                add(e, &amount, 1);
+            }
+        }
+    }
+    drawn
+}
+
 /// Runs all document oracles.
 pub fn check_all(m: &PModel, s: &SSolution) -> (Vec<Issue>, Probes) {
     let mut out = vec![];
